@@ -35,19 +35,31 @@ def verdictStr (b : Bool) : String := if b then "within" else "outside"
 /-- parser ops.  `single`: accuracy and reference of binary32; `is32`: the result is a `float32_t` (8 hex digits),
     otherwise a double (a widened float for the WITHOUT_ATOF64 flavours); `own` = encoding of the model's result in
     the result type and the end offset -/
+structure ParseRec where
+  refBits : Nat     -- encoding of the reference in the result type
+  width : Nat       -- bytes of the result type
+  cls : Nat
+  endOff : Nat
+  ok : Bool
+
+def parseRec (single is32 strict : Bool) (s : List Nat) (ob e : Nat) : ParseRec :=
+  let L := matchLit s
+  let rf := if single then b32 else b64
+  let rb := refBits rf L
+  let of := if is32 then b32 else b64
+  let shown := if is32 then rb else if single then sfCvt b32 b64 rb else rb
+  -- bit-identical to the reference (and not NaN): inside every allowance; otherwise the allowance over `Rat`
+  let same := shown == ob && !sfIsNaN of ob
+  let ok := same || atofWithin single strict L (valOf rf rb) (valOf of ob)
+  { refBits := shown, width := if is32 then 4 else 8, cls := classOf rf L rb of ob, endOff := e, ok := ok }
+
 def parseCanon (single is32 strict withEnd : Bool) (s : List Nat) (own : Option (Nat × Nat)) : String :=
   match own with
   | none => "fault"
   | some (ob, e) =>
-    let L := matchLit s
-    let rf := if single then b32 else b64
-    let rb := refBits rf L
-    let of := if is32 then b32 else b64
-    let refHex := if is32 then hexOfNat 8 rb else if single then hexOfNat 16 (sfCvt b32 b64 rb) else hexOfNat 16 rb
-    -- bit-identical to the reference (and not NaN): inside every allowance; otherwise the allowance over `Rat`
-    let same := (if is32 || !single then rb == ob else sfCvt b32 b64 rb == ob) && !sfIsNaN of ob
-    let ok := same || atofWithin single strict L (valOf rf rb) (valOf of ob)
-    refHex ++ " " ++ classOf rf L rb of ob ++ (if withEnd then " e" ++ toString e else "") ++ " " ++ verdictStr ok
+    let c := parseRec single is32 strict s ob e
+    hexOfNat (2 * c.width) c.refBits ++ " " ++ className c.cls ++ (if withEnd then " e" ++ toString e else "") ++ " " ++
+      verdictStr c.ok
 
 /-- renderer ops (igris_f32toa / f64toa / ftoa): argument encoding in `af`, the float the renderer works on in `fb` -/
 def ftoaCanon (fromDouble : Bool) (af : Fmt) (ab : Nat) (fb : Nat) (prec8 : Int) (own : Option (List Nat)) : String :=
@@ -154,22 +166,34 @@ example (s : List Nat) : igrisStrtod32 F64.toF32 F32.toF64 s = (a32 s).map fun (
 example (s : List Nat) : compatStrtod32 F64.toF32 F32.toF64 s = (a32 s).map fun (v, e) => (F32.toF64 v, e) := rfl
 example (s : List Nat) : compatAtof32 F64.toF32 F32.toF64 s = (a32 s).map fun (v, _) => F32.toF64 v := rfl
 
+def feedLE (h : UInt64) : Nat → UInt64 → UInt64
+  | 0, _ => h
+  | n + 1, v => feedLE ((h ^^^ (v &&& 255)) * 0x100000001b3) n (v >>> 8)
+
+def feedRec (h : UInt64) (withEnd : Bool) (c : Option ParseRec) : UInt64 :=
+  match c with
+  | none => fnvStep h 0xfd
+  | some c =>
+    let h := feedLE h c.width (UInt64.ofNat c.refBits)
+    let h := fnvStep h c.cls
+    let h := fnvStep h (if withEnd then c.endOff % 256 else 255)
+    fnvStep h (if c.ok then 1 else 0)
+
 def gxOne (h : UInt64) (s : List Nat) : UInt64 :=
   let r64 : Option (F64 × Nat) := igrisAtof64 s
   let r32 := a32 s
-  let w32 : Option (F64 × Nat) := r32.map fun (v, e) => (F32.toF64 v, e)
-  let l64 := atofLine64 false false true s r64
-  let l32 := atofLine32 true s r32
-  let lw := atofLine64 true false true s w32
-  let h := fnvStr h l64                                   -- igris_atof64
-  let h := fnvStr h l64                                   -- igris_strtod
-  let h := fnvStr h l64                                   -- compat strtod
-  let h := fnvStr h (atofLine64 false false false s r64)  -- compat atof
-  let h := fnvStr h l32                                   -- igris_atof32
-  let h := fnvStr h l32                                   -- binreader::read_ascii_decimal_float
-  let h := fnvStr h lw                                    -- igris_strtod, WITHOUT_ATOF64
-  let h := fnvStr h lw                                    -- compat strtod, WITHOUT_ATOF64
-  fnvStr h (atofLine64 true false false s w32)            -- compat atof, WITHOUT_ATOF64
+  let c64 := r64.map fun (v, e) => parseRec false false false s v.bits e
+  let c32 := r32.map fun (v, e) => parseRec true true false s v.bits e
+  let cw := r32.map fun (v, e) => parseRec true false false s (F32.toF64 v).bits e
+  let h := feedRec h true c64      -- igris_atof64
+  let h := feedRec h true c64      -- igris_strtod
+  let h := feedRec h true c64      -- compat strtod
+  let h := feedRec h false c64     -- compat atof
+  let h := feedRec h true c32      -- igris_atof32
+  let h := feedRec h true c32      -- binreader::read_ascii_decimal_float
+  let h := feedRec h true cw       -- igris_strtod, WITHOUT_ATOF64
+  let h := feedRec h true cw       -- compat strtod, WITHOUT_ATOF64
+  feedRec h false cw               -- compat atof, WITHOUT_ATOF64
 
 def gxBatch (len : Nat) : Nat → Nat → UInt64 → UInt64
   | 0, _, h => h
